@@ -130,11 +130,23 @@ func workerC(c *core.Ctx, args []string) {
 	fmt.Sscan(args[2], &n)
 	pre := len(args) > 3 && args[3] == "pre"
 	defer installSchedLimiter()()
-	e := &sched.Explorer{Sc: scenarioC(pre), Bound: bound, Shard: shard, NShards: n, Deadline: c.Deadline}
+	sc, scName := scenarioC(pre), ""
+	if len(args) > 3 && strings.HasPrefix(args[3], "accept:") {
+		scName = args[3]
+		sc = scenarioE(strings.TrimPrefix(scName, "accept:"))
+	}
+	e := &sched.Explorer{Sc: sc, Bound: bound, Shard: shard, NShards: n, Deadline: c.Deadline}
 	st := e.Explore()
 	c.Add("cases_write_concurrent_schedules", st.Executions)
 	c.Add("replay_divergences", st.Divergences)
+	if scName != "" {
+		c.Add("cases_accept_concurrent_schedules", st.Executions)
+	}
 	for o := range st.Outcomes {
+		if scName != "" {
+			c.Distinct("accept_concurrent_outcomes", scName+"|"+o)
+			continue
+		}
 		c.Distinct("write_concurrent_outcomes", o)
 	}
 	if !st.Exhaustive {
@@ -144,7 +156,7 @@ func workerC(c *core.Ctx, args []string) {
 		c.Sample(map[string]interface{}{"part": "c", "scenario": e.Sc.Name, "default_schedule": st.FirstTrace})
 	}
 	for _, f := range st.Violations {
-		c.Violate(f.Sig, f.What+fmt.Sprintf(" | deviations at %v", f.Sites), map[string]interface{}{"part": "c", "choices": f.Choices, "bound": bound, "prequeued": pre})
+		c.Violate(f.Sig, f.What+fmt.Sprintf(" | deviations at %v", f.Sites), map[string]interface{}{"part": "c", "choices": f.Choices, "bound": bound, "prequeued": pre, "scenario": scName})
 	}
 }
 
@@ -154,7 +166,11 @@ func partC(c *core.Ctx) {
 		bound = 3
 	}
 	n := core.NumWorkers()
-	for _, pre := range []string{"", "pre"} {
+	scenarios := []string{"", "pre"}
+	for _, set := range acceptSets {
+		scenarios = append(scenarios, "accept:"+set)
+	}
+	for _, pre := range scenarios {
 		for b := 0; b <= bound; b++ {
 			shards := n
 			if b < 2 {
@@ -168,11 +184,15 @@ func partC(c *core.Ctx) {
 	}
 	c.Set("write_concurrent_deviation_bound", bound)
 	c.Set("write_concurrent_distinct_outcomes", c.DistinctCount("write_concurrent_outcomes"))
+	c.Set("accept_concurrent_distinct_outcomes", c.DistinctCount("accept_concurrent_outcomes"))
 }
 
-func replayC(c *core.Ctx, choices []int, pre bool) {
+func replayC(c *core.Ctx, choices []int, pre bool, scName string) {
 	defer installSchedLimiter()()
 	sc := scenarioC(pre)
+	if strings.HasPrefix(scName, "accept:") {
+		sc = scenarioE(strings.TrimPrefix(scName, "accept:"))
+	}
 	sched.EnableFiles(sc.Files...)
 	x := sched.Run(choices, true, sc.Body)
 	s, w := "", ""
